@@ -309,14 +309,18 @@ theorem progress (c : Cfg) (inv : Inv c) (h : ∃ t ∈ c.ts, c.prog t ≠ []) :
   obtain ⟨f, m, r, h', hp, hh⟩ := blocked t ht.1 ht.2
   -- the holder of `m` is itself unfinished, hence blocked on some `m2`
   obtain ⟨hh'ts, hh'ne⟩ := inv.holders m h' hh
-  obtain ⟨f2, m2, r2, h2, hp2, _⟩ := blocked h' hh'ts hh'ne
+  obtain ⟨f2, m2, r2, h2, hp2, hh2⟩ := blocked h' hh'ts hh'ne
   have hne : h' ≠ t := by
     intro e; subst e
     exact (inv.ordered h' f m r hp m hh).1 rfl
-  -- it holds `m` and wants `m2`: `m < m2` (m is not private to it: `t` waits for it)
+  -- it holds `m` and wants `m2`: `m < m2` (`m2` is not private to it: it would hold it itself;
+  -- `m` is not private to it: `t` waits for it)
   have hord := (inv.ordered h' f2 m2 r2 hp2 m hh).2
   have hlt : m < m2 := by
-    rcases hord with h | h
+    rcases hord with h | h | h
+    · have e := inv.priv_holder h' m2 h h2 hh2
+      subst e
+      exact absurd rfl (inv.ordered h2 f2 m2 r2 hp2 m2 hh2).1
     · exact h
     · exact absurd hp (inv.private_ h' m h t f r (Ne.symm hne))
   -- contradiction with maximality
@@ -325,10 +329,345 @@ theorem progress (c : Cfg) (inv : Inv c) (h : ∃ t ∈ c.ts, c.prog t ≠ []) :
   simp [want, hp, hp2] at this
   omega
 
+/-! ### no deadlock: the discipline holds in every reachable configuration of the generated calls -/
+
+variable {ts : List Nat} {priv : Nat → Nat → Prop} [∀ t, DecidablePred (priv t)]
+
+theorem disc_nil_held {privs : Nat → Prop} [DecidablePred privs] {h : List Nat} (hd : disc privs [] h = true) : h = [] := by
+  simpa [disc] using hd
+
+/-- the discipline is preserved by every step -/
+theorem wf_preserved {c c' : Sys} (w : WF ts priv c) (st : Step c c') : WF ts priv c' := by
+  obtain ⟨t, a, r, hp, hen, rfl⟩ := st
+  have hdt := w.disc_ t
+  rw [hp] at hdt
+  cases a with
+  | acq k f m =>
+    cases k with
+    | try_ => simp [disc] at hdt
+    | blocking =>
+      simp only [disc, Bool.and_eq_true, Bool.not_eq_true', List.contains_eq_mem, decide_eq_false_iff_not] at hdt
+      obtain ⟨⟨hnm, _⟩, hr⟩ := hdt
+      have hfree : (c.s m).holder = none := hen
+      have hs' : (MutexPanic.step c.s t (.acq .blocking f m)).2 = c.s.set m ⟨some t, false⟩ := by
+        simp only [MutexPanic.step, attempt, hfree, w.unpoisoned m]
+        congr 1
+      refine ⟨step_unpoisoned c.s w.unpoisoned t _, ?_, ?_, ?_, ?_, ?_, ?_⟩
+      rotate_right
+      · intro t1 m1 hpr t' hh
+        simp only [hs', St.set] at hh
+        by_cases hm : m1 = m
+        · subst hm
+          simp at hh
+          subst hh
+          apply Classical.byContradiction
+          intro hne
+          exact w.private_ t1 m1 hpr _ hne (.acq .blocking f m1) (by rw [hp]; simp) rfl
+        · simp [hm] at hh
+          exact w.priv_holder t1 m1 hpr t' hh
+      · intro m2 t2
+        simp only [hs', St.set, upd, heldAfter]
+        by_cases hm : m2 = m
+        · subst hm
+          simp only [if_true]
+          by_cases ht : t2 = t
+          · subst ht; simp
+          · have : m2 ∉ c.held t2 := fun hc => by
+              have := (w.holder_iff m2 t2).mpr hc
+              rw [hfree] at this; cases this
+            simp [ht, this, Ne.symm ht]
+        · simp only [hm, if_false]
+          by_cases ht : t2 = t
+          · subst ht; simp [hm, w.holder_iff]
+          · simp [ht, w.holder_iff]
+      · intro t2 ht2
+        simp only [upd]
+        by_cases ht : t2 = t
+        · subst ht
+          have := w.outside t2 ht2
+          rw [hp] at this; cases this
+        · simp [ht, w.outside t2 ht2]
+      · intro t2
+        simp only [upd, heldAfter]
+        by_cases ht : t2 = t
+        · subst ht; simpa using hr
+        · simp [ht, w.disc_ t2]
+      · intro t2
+        simp only [upd, heldAfter]
+        by_cases ht : t2 = t
+        · subst ht; simp [w.nodup t2, hnm]
+        · simp [ht, w.nodup t2]
+      · intro t1 m1 hpr t' hne a ha
+        simp only [upd] at ha
+        by_cases ht : t' = t
+        · subst ht
+          simp at ha
+          exact w.private_ t1 m1 hpr t' hne a (by rw [hp]; simp [ha])
+        · simp [ht] at ha
+          exact w.private_ t1 m1 hpr t' hne a ha
+  | rel m =>
+    simp only [disc, Bool.and_eq_true, List.contains_eq_mem, decide_eq_true_eq] at hdt
+    obtain ⟨hmem, hr⟩ := hdt
+    have hhold : (c.s m).holder = some t := (w.holder_iff m t).mpr hmem
+    have hs' : (MutexPanic.step c.s t (.rel m)).2 = c.s.set m { (c.s m) with holder := none } := by
+      simp [MutexPanic.step, hhold]
+    refine ⟨step_unpoisoned c.s w.unpoisoned t _, ?_, ?_, ?_, ?_, ?_, ?_⟩
+    rotate_right
+    · intro t1 m1 hpr t' hh
+      simp only [hs', St.set] at hh
+      by_cases hm : m1 = m
+      · subst hm; simp at hh
+      · simp [hm] at hh
+        exact w.priv_holder t1 m1 hpr t' hh
+    · intro m2 t2
+      simp only [hs', St.set, upd, heldAfter]
+      by_cases hm : m2 = m
+      · subst hm
+        simp only [if_true]
+        by_cases ht : t2 = t
+        · subst ht
+          simp [(w.nodup t2).mem_erase_iff]
+        · have : m2 ∉ c.held t2 := fun hc => by
+            have := (w.holder_iff m2 t2).mpr hc
+            rw [hhold] at this
+            exact ht (Option.some.inj this).symm
+          simp [ht, this]
+      · simp only [hm, if_false]
+        by_cases ht : t2 = t
+        · subst ht; simp [List.mem_erase_of_ne hm, w.holder_iff]
+        · simp [ht, w.holder_iff]
+    · intro t2 ht2
+      simp only [upd]
+      by_cases ht : t2 = t
+      · subst ht
+        have := w.outside t2 ht2
+        rw [hp] at this; cases this
+      · simp [ht, w.outside t2 ht2]
+    · intro t2
+      simp only [upd, heldAfter]
+      by_cases ht : t2 = t
+      · subst ht; simpa using hr
+      · simp [ht, w.disc_ t2]
+    · intro t2
+      simp only [upd, heldAfter]
+      by_cases ht : t2 = t
+      · subst ht; simp [(w.nodup t2).erase]
+      · simp [ht, w.nodup t2]
+    · intro t1 m1 hpr t' hne a ha
+      simp only [upd] at ha
+      by_cases ht : t' = t
+      · subst ht
+        simp at ha
+        exact w.private_ t1 m1 hpr t' hne a (by rw [hp]; simp [ha])
+      · simp [ht] at ha
+        exact w.private_ t1 m1 hpr t' hne a ha
+
+theorem wf_reach {c0 c : Sys} (w : WF ts priv c0) (r : Reach c0 c) : WF ts priv c := by
+  induction r with
+  | refl => exact w
+  | step _ st ih => exact wf_preserved ih st
+
+/-- the discipline every reachable configuration satisfies implies `Inv` -/
+theorem wf_inv {c : Sys} (w : WF ts priv c) : Inv ⟨c.s, ts, c.prog, priv⟩ := by
+  refine ⟨?_, ?_, ?_, ?_⟩
+  · intro m t h
+    have hm : m ∈ c.held t := (w.holder_iff m t).mp h
+    have hne : c.prog t ≠ [] := by
+      intro e
+      have := w.disc_ t
+      rw [e] at this
+      rw [disc_nil_held this] at hm
+      cases hm
+    refine ⟨?_, hne⟩
+    apply Classical.byContradiction
+    intro hnot
+    exact hne (w.outside t hnot)
+  · intro t f m r hp m' h
+    simp only at hp h ⊢
+    have hm' : m' ∈ c.held t := (w.holder_iff m' t).mp h
+    have hd := w.disc_ t
+    rw [hp] at hd
+    simp only [disc, Bool.and_eq_true, Bool.not_eq_true', List.contains_eq_mem, decide_eq_false_iff_not,
+      Bool.or_eq_true, decide_eq_true_eq, List.all_eq_true] at hd
+    obtain ⟨⟨hnm, hor⟩, _⟩ := hd
+    refine ⟨fun e => hnm (e ▸ hm'), ?_⟩
+    rcases hor with hpm | hall
+    · exact Or.inl hpm
+    · exact Or.inr (hall m' hm')
+  · intro t m hpr t' f r hne hp
+    simp only at hp hpr
+    exact w.private_ t m hpr t' hne (.acq .blocking f m) (by rw [hp]; simp) rfl
+  · exact w.priv_holder
+
+/-- **no_deadlock**: from a well-formed start, in every reachable configuration
+    in which some thread still has something to do, some thread can take its next step. -/
+theorem no_deadlock {c0 c : Sys} (w : WF ts priv c0) (r : Reach c0 c) (h : ∃ t ∈ ts, c.prog t ≠ []) :
+    ∃ c', Step c c' := by
+  obtain ⟨t, _, a, r', hp, hen⟩ := progress ⟨c.s, ts, c.prog, priv⟩ (wf_inv (wf_reach w r)) h
+  exact ⟨_, t, a, r', hp, hen, rfl⟩
+
+/-! ### from the generated events to the discipline -/
+
+theorem mayAlias_symm (d : Bool) (a b : Tgt) : mayAlias d a b = mayAlias d b a := by
+  cases d <;> cases a <;> cases b <;> rfl
+
+theorem mayAlias_refl (d : Bool) (a : Tgt) : mayAlias d a a = true := by
+  cases d <;> cases a <;> rfl
+
+theorem callOk_sound (privs : Nat → Prop) [DecidablePred privs] (ρ : Tgt → Nat) (hρ : RhoOrd ρ privs)
+    (rest : List Act) (hrest : disc privs rest [] = true) :
+    ∀ (evs : List Ev) (held : List Tgt) (heldM : List Nat) (d : Bool),
+      (d = true → ρ .self_ ≠ ρ .other) → heldM.Nodup →
+      (∀ m ∈ heldM, ∃ h ∈ held, ρ h = m) → (∀ h ∈ held, ρ h ∈ heldM) →
+      (∀ a ∈ held, ∀ b ∈ held, a ≠ b → mayAlias d a b = false) → held.Nodup →
+      callOk evs held d = true → disc privs (callActs ρ evs ++ rest) heldM = true := by
+  intro evs
+  induction evs with
+  | nil =>
+    intro held heldM d _ _ himg _ _ _ h
+    have : held = [] := by simpa [callOk] using h
+    subst this
+    have : heldM = [] := by
+      cases heldM with
+      | nil => rfl
+      | cons m _ => obtain ⟨x, hx, _⟩ := himg m (by simp); cases hx
+    subst this
+    simpa [callActs] using hrest
+  | cons e r ih =>
+    intro held heldM d hd hnd himg hfwd hpw hndT h
+    cases e with
+    | acq k f t =>
+      simp only [callOk, Bool.and_eq_true, Bool.not_eq_true', List.any_eq_false, beq_iff_eq, Bool.or_eq_true,
+        List.all_eq_true] at h
+      obtain ⟨⟨⟨hk, hna⟩, hord⟩, hr⟩ := h
+      subst hk
+      have hna' : ∀ x ∈ held, mayAlias d t x = false := fun x hx => by simpa using hna x hx
+      have hnot : ρ t ∉ heldM := by
+        intro hm
+        obtain ⟨x, hx, hxe⟩ := himg _ hm
+        exact mayAlias_sound ρ hρ.toRhoOk d hd t x (hna' x hx) hxe.symm
+      have htn : t ∉ held := fun hc => by
+        have := hna' t hc
+        rw [mayAlias_refl] at this; cases this
+      simp only [callActs, List.cons_append, disc, Bool.and_eq_true, Bool.not_eq_true', List.contains_eq_mem,
+        decide_eq_false_iff_not, Bool.or_eq_true, decide_eq_true_eq, List.all_eq_true]
+      refine ⟨⟨hnot, ?_⟩, ?_⟩
+      · rcases hord with hf | hall
+        · left; rw [hf]; exact hρ.fresh_priv
+        · right
+          intro m hm
+          obtain ⟨x, hx, hxe⟩ := himg m hm
+          rcases hall x hx with hxf | ⟨hxl, hth⟩
+          · right; rw [← hxe, hxf]; exact hρ.fresh_priv
+          · left
+            subst hxl; subst hth
+            have hne : ρ .hi ≠ ρ .lo := mayAlias_sound ρ hρ.toRhoOk d hd .hi .lo (hna' .lo hx)
+            have := hρ.lo_le_hi
+            omega
+      · refine ih (t :: held) (ρ t :: heldM) d hd (List.nodup_cons.mpr ⟨hnot, hnd⟩) ?_ ?_ ?_ (List.nodup_cons.mpr ⟨htn, hndT⟩) hr
+        · intro m hm
+          rcases List.mem_cons.mp hm with rfl | hm
+          · exact ⟨t, by simp, rfl⟩
+          · obtain ⟨x, hx, hxe⟩ := himg _ hm
+            exact ⟨x, by simp [hx], hxe⟩
+        · intro x hx
+          rcases List.mem_cons.mp hx with rfl | hx
+          · simp
+          · simp [hfwd x hx]
+        · intro a ha b hb hab
+          rcases List.mem_cons.mp ha with ha | ha <;> rcases List.mem_cons.mp hb with hb | hb
+          · exact absurd (ha.trans hb.symm) hab
+          · rw [ha]; exact hna' b hb
+          · rw [hb, mayAlias_symm]; exact hna' a ha
+          · exact hpw a ha b hb hab
+    | rel t =>
+      simp only [callOk, Bool.and_eq_true, List.contains_eq_mem, decide_eq_true_eq] at h
+      obtain ⟨hmem, hr⟩ := h
+      simp only [callActs, List.cons_append, disc, Bool.and_eq_true, List.contains_eq_mem, decide_eq_true_eq]
+      refine ⟨hfwd t hmem, ?_⟩
+      refine ih (held.erase t) (heldM.erase (ρ t)) d hd (hnd.erase _) ?_ ?_ ?_ (hndT.erase _) hr
+      · intro m hm
+        have hm' := (hnd.mem_erase_iff).mp hm
+        obtain ⟨x, hx, hxe⟩ := himg _ hm'.2
+        have hxt : x ≠ t := by
+          intro e; subst e; exact hm'.1 hxe.symm
+        exact ⟨x, (List.mem_erase_of_ne hxt).mpr hx, hxe⟩
+      · intro x hx
+        have hx' := (hndT.mem_erase_iff).mp hx
+        have hne : ρ x ≠ ρ t := mayAlias_sound ρ hρ.toRhoOk d hd x t (hpw x hx'.2 t hmem hx'.1)
+        exact (hnd.mem_erase_iff).mpr ⟨hne, hfwd x hx'.2⟩
+      · intro a ha b hb hab
+        exact hpw a (List.mem_of_mem_erase ha) b (List.mem_of_mem_erase hb) hab
+    | distinctOrReturn =>
+      simp only [callOk, Bool.and_eq_true, List.isEmpty_iff] at h
+      obtain ⟨he, hr⟩ := h
+      subst he
+      have : heldM = [] := by
+        cases heldM with
+        | nil => rfl
+        | cons m _ => obtain ⟨x, hx, _⟩ := himg m (by simp); cases hx
+      subst this
+      simp only [callActs]
+      split
+      · simpa using hrest
+      · next hne =>
+        exact ih [] [] true (fun _ => hne) List.nodup_nil (by simp) (by simp) (by simp) List.nodup_nil hr
+
+
+/-- Every function compiled code reaches follows the static discipline. -/
+theorem builtin_fns_disciplined :
+    ∀ f ∈ LockFn.all, f.reachedByBuiltins = true → callOk f.events [] false = true := by
+  decide
+
+theorem progOf_disc (privs : Nat → Prop) [DecidablePred privs] :
+    ∀ (calls : List (List Ev × (Tgt → Nat))),
+      (∀ x ∈ calls, (∃ f ∈ LockFn.all, f.reachedByBuiltins = true ∧ x.1 = f.events) ∧ RhoOrd x.2 privs) →
+      disc privs (progOf calls) [] = true
+  | [], _ => by simp [progOf, disc]
+  | (evs, ρ) :: r, h => by
+    obtain ⟨⟨f, hf, hfr, he⟩, hρ⟩ := h (evs, ρ) (by simp)
+    have hr := progOf_disc privs r (fun y hy => h y (by simp [hy]))
+    simp only at he
+    subst he
+    exact callOk_sound privs ρ hρ (progOf r) hr f.events [] [] false (by simp) List.nodup_nil
+      (by simp) (by simp) (by simp) List.nodup_nil (builtin_fns_disciplined f hf hfr)
+
+/-- **builtins_never_deadlock**: any number of threads, each making any
+    sequence of calls of the list functions compiled code reaches (as written:
+    the generated events), on any lists — aliased or not, shared between the
+    threads or not — where `lo`/`hi` are `self`/`other` in address order and the
+    list a call creates is not used by another thread: from free, unpoisoned
+    mutexes, in EVERY reachable configuration in which some thread is not
+    finished, some thread can take its next step.  No schedule ends in a
+    deadlock; together with `builtin_no_panic_under_contention`, every call
+    can always be driven to its end. -/
+theorem builtins_never_deadlock (ts : List Nat) (priv : Nat → Nat → Prop) [∀ t, DecidablePred (priv t)]
+    (calls : Nat → List (List Ev × (Tgt → Nat))) (s0 : St)
+    (hs0 : s0.unpoisoned) (hfree : ∀ m, (s0 m).holder = none)
+    (hcalls : ∀ t, ∀ x ∈ calls t,
+      (∃ f ∈ LockFn.all, f.reachedByBuiltins = true ∧ x.1 = f.events) ∧ RhoOrd x.2 (priv t))
+    (hout : ∀ t, t ∉ ts → calls t = [])
+    (hpriv : ∀ t m, priv t m → ∀ t', t' ≠ t → ∀ a ∈ progOf (calls t'), Act.mutex a ≠ m)
+    (c : Sys) (r : Reach ⟨s0, fun t => progOf (calls t), fun _ => []⟩ c) (h : ∃ t ∈ ts, c.prog t ≠ []) :
+    ∃ c', Step c c' := by
+  refine no_deadlock (ts := ts) (priv := priv) ⟨hs0, ?_, ?_, ?_, ?_, hpriv, ?_⟩ r h
+  · intro m t; simp [hfree m]
+  · intro t ht; simp [hout t ht, progOf]
+  · intro t; exact progOf_disc (priv t) (calls t) (hcalls t)
+  · intro t; exact List.nodup_nil
+  · intro t m _ t' hh; simp [hfree m] at hh
+
+-- non-vacuity: admissible assignments exist (`a == b` on one thread, `b == a` on another)
+example : RhoOrd (fun t => match t with | .self_ => 1 | .other => 2 | .lo => 1 | .hi => 2 | .fresh => 9 | .unknown => 0) (· = 9) :=
+  ⟨⟨by decide, by decide, by decide, by decide, Or.inl ⟨rfl, rfl⟩⟩, by decide, rfl⟩
+example : RhoOrd (fun t => match t with | .self_ => 2 | .other => 1 | .lo => 1 | .hi => 2 | .fresh => 9 | .unknown => 0) (· = 9) :=
+  ⟨⟨by decide, by decide, by decide, by decide, Or.inr ⟨rfl, rfl⟩⟩, by decide, rfl⟩
+
 -- non-vacuity: a configuration with work to do satisfies the discipline
 example : ∃ c : Cfg, Inv c ∧ ∃ t ∈ c.ts, c.prog t ≠ [] :=
   ⟨⟨St.init, [0], fun t => if t = 0 then [.acq .blocking .unwrap 3, .rel 3] else [], fun _ _ => False⟩,
-   ⟨by intro m t h; simp [St.init] at h, by intro t f m r _ m' h; simp [St.init] at h, by intro t m h; exact absurd h id⟩,
+   ⟨by intro m t h; simp [St.init] at h, by intro t f m r _ m' h; simp [St.init] at h, by intro t m h; exact absurd h id,
+    by intro t m h; exact absurd h id⟩,
    0, by simp, by simp⟩
 
 end RotoV.C10C
